@@ -3,17 +3,17 @@ package conc
 import (
 	"context"
 	"fmt"
+	"math/rand/v2"
 	"os"
 	"strings"
-	"math/rand/v2"
 	"sync"
 	"testing"
 	"time"
 
 	"github.com/cockroachdb/pebble"
 	"github.com/cockroachdb/pebble/internal/base"
-	"github.com/cockroachdb/pebble/rangekey"
 	"github.com/cockroachdb/pebble/internal/verif/vcommon"
+	"github.com/cockroachdb/pebble/rangekey"
 	"github.com/cockroachdb/pebble/vfs"
 )
 
@@ -268,16 +268,15 @@ func TestVerifC42(t *testing.T) {
 			}
 			time.Sleep(3 * time.Millisecond)
 		})
-		mkN := 0
-		spawn("marker", func(r *rand.Rand) {
-			if err := w.writeMarker(r, mkN); err != nil {
-				w.fail("marker-error", "%v", err)
-			}
-			mkN++
-			if mkN%4 == 0 {
-				time.Sleep(time.Millisecond)
-			}
-		})
+		for chain := 0; chain < 3; chain++ {
+			chain, mkN := chain, 0
+			spawn(fmt.Sprintf("marker%d", chain), func(r *rand.Rand) {
+				if err := w.writeMarker(r, chain, mkN); err != nil {
+					w.fail("marker-error", "%v", err)
+				}
+				mkN++
+			})
+		}
 		ckN := 0
 		spawn("checkpoint", func(r *rand.Rand) {
 			ckN++
